@@ -58,7 +58,55 @@ def gen_case(rng):
     return {'grid': g, 'assets': assets, 'prices': gen.gen_prices(rng, T, sorted(set(pk)), kind='normal')}
 
 
+def run_wrapped_case(rng, tier, case):
+    """the order book as base asset of a wrapper with a lifetime of its own (ScaledAsset at fixed scale 1): the book acts inside that lifetime only - an
+    order is delivered over the steps of its window that lie in the lifetime, and paid for those steps, each with its own discount factor."""
+    spec = gen_case(rng)
+    sp = gen.strip_private(spec)
+    ob = [a for a in sp['assets'] if a['type'] == 'OrderBook'][0]
+    ob.pop('_orders_as_df', None); ob['full_exec'] = False
+    ob['wacc'] = float(gen.pick(rng, [0., 0.5, 2.0]))
+    ws, we, _k = gen.gen_window(rng, sp['grid'], kinds=['inside', 'inside', 'straddle_start', 'straddle_end', 'start_only', 'end_only'])
+    wrapper = {'type': 'ScaledAsset', 'name': 'wrapped_book', 'base': ob, 'min_scale': 1., 'max_scale': 1., 'norm_scale': 1., 'fix_costs': 0., 'start': ws, 'end': we, 'wacc': 0.}
+    sp['assets'] = [wrapper if a is ob else a for a in sp['assets']]
+    case.feature('book_inside_wrapper_with_lifetime', 'freq:' + sp['grid']['freq'])
+    case.key = env.spec_key([sp, 'wrapped']); case.sample = gen.abbreviate(sp); case.spec = sp
+    r = flow.run_portfolio(sp)
+    if not r.ok:
+        if isinstance(r.error, AssertionError):
+            case.reject(flow.describe_error(r)); return
+        case.check('orders.wrapped_book_setup_works', False, error=flow.describe_error(r), window=[ws, we]); return
+    ck = Clock(sp['grid'])
+    W = set(ck.window(ws, we))
+    o = ob['orders']; n = len(o['start'])
+    d = ck.disc(ob.get('wacc', 0.))
+    cover = []
+    for k in range(n):
+        s_ = ck.ts(o['start'][k]); e_ = ck.ts(o['end'][k])
+        cover.append([t for t in range(ck.T) if s_ <= ck.points[t] < e_ and t in W])
+    kd = [k_ for pev, kids in flow.top_setups(r.rec)[:1] for k_ in kids if k_.args['name'] == 'wrapped_book']
+    if not kd or kd[0].snap is None or len(kd[0].snap.c) == 0:
+        case.feature('wrapped_book_inactive'); return
+    cvec = np.asarray(kd[0].snap.c, float)
+    if len(cvec) != n + 1:
+        case.check('orders.one_variable_per_order', False, n_orders=n, n_vars=len(cvec) - 1, wrapped=True); return
+    wantv = np.array([o['capa'][k] * o['price'][k] * float(np.sum(ck.dt[cover[k]] * d[cover[k]])) if cover[k] else 0. for k in range(n)])
+    kb = int(np.argmax(np.abs(cvec[:n] - wantv) / (1. + np.abs(wantv))))
+    case.check('orders.cost_coefficient_is_discounted_per_step', bool(np.all(np.abs(cvec[:n] - wantv) <= 1e-9 * (1. + np.abs(wantv)))), nonvacuous=any(cover), order=kb, coefficient=float(cvec[kb]),
+               want=float(wantv[kb]), wacc=ob.get('wacc', 0.), wrapped=True, window=[ws, we])
+    m = kd[0].snap.mapping
+    rows = m[m['type'] == 'd']
+    steps_of = {}
+    for i_, t_ in zip(rows.index, rows['time_step']):
+        steps_of.setdefault(int(i_), set()).add(int(t_))
+    bad = [k for k in range(n) if steps_of.get(k, set()) != set(cover[k])]
+    case.check('orders.delivered_over_window_inside_lifetime', not bad, nonvacuous=any(cover), first_bad=[{'order': k, 'steps': sorted(steps_of.get(k, set()))[:6], 'want': cover[k][:6]} for k in bad[:2]], window=[ws, we])
+    case.nontrivial = any(cover)
+
+
 def run_case(rng, tier, case):
+    if rng.random() < 0.12:
+        return run_wrapped_case(rng, tier, case)
     spec = gen_case(rng)
     sp = gen.strip_private(spec)
     ob = [a for a in sp['assets'] if a['type'] == 'OrderBook'][0]
